@@ -117,6 +117,15 @@ impl<'t> FieldTypeAndInstantiationsBuilder<'t, '_> {
 					format!(#pattern, namespace.get())
 				}
 			}
+			Some(_) if matches!(field_kind, FieldKind::StructField { .. }) => {
+				// `type_name` already holds the overridden namespace, and for generic structs
+				// the suffix that distinguishes their instantiations
+				let FieldKind::StructField { field_name, .. } = field_kind else {
+					unreachable!()
+				};
+				let pattern = format!(r#"{{}}.{}"#, field_name.unraw());
+				quote! { format!(#pattern, type_name) }
+			}
 			Some(namespace) => {
 				let namespace_prefix = if namespace.is_empty() {
 					"".to_owned()
